@@ -1,2 +1,3 @@
 import RoGen.Catalogue
 import RoGen.Plugins
+import RoGen.SubjectLocks
